@@ -26,7 +26,14 @@ claim("C19", "Registry",
       "Plugin identity abstracted to (class full name, format). Histories longer than the bound are covered by simulation and trace validation only. Trusted: TLC, CommunityModules Json, CPython.",
       "DESIGN.md §5 C19")
 
+claim("C01", "LeastSquares",
+      "TLA+ spec LeastSquares.tla: exact integer VP/NNLS oracle with orthogonality, KKT, uniqueness and minimality checked by TLC on every enumerated instance; every emitted instance replayed on residual_variable_projection / residual_nnls (C/F order, 2^k-scaled data)",
+      "TLC enumerates all integer instances (A, y) of a bounded lattice (plus a kinetic catalogue of nearly collinear integer columns), proves on each that the exact solution satisfies the optimality certificates the property names, and emits the exact clp and residual; the real functions must reproduce them to 1e-9 relative, also for data scaled by 2^-300..2^300.",
+      "Decides the property on exact lattice instances with condition numbers up to ~1e4; condition numbers 1e4..1e10 are floating-point error analysis and are not decided (DESIGN §6). Trusted: TLC, Fraction division.",
+      "DESIGN.md §5 C01")
+
 ENGINES = [
+    {"name": "LeastSquares", "path": "spec/LeastSquares.tla", "serves_properties": ["C01"], "kind_free_text": "TLA+ exact oracle over fraction-free integer linear algebra (LinAlg.tla) + LeastSquaresEmit; harness/c01.py"},
     {"name": "Registry", "path": "spec/Registry.tla", "serves_properties": ["C19"], "kind_free_text": "TLA+ state machine + RegistryEmit (edge emission) + RegistryTrace (trace acceptor); harness/c19.py"},
 ]
 
